@@ -419,7 +419,7 @@ register("C01", replay_with_oracle=True, lean=["Khttp.Props.C01"], run=run_parse
                      "read_unaligned, get_unchecked and from_utf8_unchecked precondition holds), returned fields are ASCII infixes of the input, off <= len, "
                      "every RequestUri accessor is panic-free. SWAR block loop + tail proved equal to takeWhile via two kernel-checked lane lemmas (Lemmas/SwarKernel.lean: per-lane bitwise ops, no-borrow subtraction, 8-bit truth tables by decide). "
                      "Oracle on the real code: no panic (catch_unwind), pointer containment of every returned slice, ASCII, accessors.")
-register("C02", replay_with_oracle=True, lean=["Khttp.Props.C02"], run=run_parse("C02", None), rule=RULE + " Plus grammar-derived heads with the expected decoding computed by the generator.",
+register("C02", replay_with_oracle=True, lean=["Khttp.Props.C02", "Khttp.Props.C02Method"], run=run_parse("C02", None), rule=RULE + " Plus grammar-derived heads with the expected decoding computed by the generator.",
          assumptions=COMMON_ASSUME + ["absolute-form restricted to scheme://authority path-abempty [?query]; pct-encoding checked as '%' anywhere"],
          explanation="Theorem C02_accepts_exactly: for every RfcHead satisfying the RFC grammar predicate Wf and any tail, the model accepts render(h)++tail and reports exactly "
                      "method, target, path/query split, version, all field lines via the collection, off = |render h|. Oracle: generator-side expected decoding vs real code.")
